@@ -19,23 +19,38 @@ Theorem declared_functional : forall f g S n d1 d2,
 Proof. exact declared_f_functional. Qed.
 Print Assumptions declared_functional.
 
-(* PARTIAL.  For every document of the core fragment ([core_spec]: properties are $refs / primitives / arrays of them,
-   schemas are such objects, allOf over ($ref | such object), primitives, enums, arrays; any number of schemas, any
-   declaration order, any depth of $ref and allOf chains) and every depth limit: if the run of the parser model fires
-   none of the loss-relevant branches (no cycle placeholder stored or returned, no depth placeholder, no early return
-   of an existing/placeholder schema, no overwrite, no dangling $ref: [events = []] — these are exactly the guards
-   F02a/F02c/F02d/F02f of the correspondence driver plus the early-return events) and all schemas got registered, then
-   every declared schema has a model that is not a placeholder and whose fields are exactly the declared ones
-   (own + inherited through allOf; key, required flag, type reference).
-   Goal not reached (stated, not proved):  forall spec, no_capture spec -> events (parse_doc md spec) = [] -> ... for ALL
-   node shapes (inline objects, maps, unions), and the static lemma  acyclic_refs spec -> events (parse_doc md spec) = []. *)
-Theorem C02_partial : forall md S,
+(* PARTIAL (the fragment is restricted, the quantifier is not).  For EVERY document of the core fragment
+   ([core_spec]: properties are $refs / primitives / arrays of ($ref | primitive | enum); schemas are such objects,
+   allOf over ($ref | such object), primitives, enums, arrays; names unique, fixed by the sanitiser, no property key
+   equal to a schema name) whose references are acyclic ([ranked_b] with a rank witness rk) and whose deepest $ref
+   chain fits the depth limit ([depth_ok]) - any number of schemas, any declaration order, any depth of $ref / allOf
+   chains - every declared schema has exactly one model, the model is not a placeholder, and its fields are exactly the
+   declared ones: own + inherited through allOf, each with its JSON key, required flag and type reference.
+   NOT proved (stated as the goal): the same conclusion for all node shapes (inline objects, maps, unions; needs
+   [no_capture]) and for cyclic documents under  guard_F02a && guard_F02b && guard_F02c && guard_F02d && guard_F02f. *)
+Theorem C02_partial : forall md S rk,
+  core_spec S = true -> ranked_b rk S = true -> depth_ok rk S md = true ->
+  forall n, In n (map fst S) -> faithful S (parse_doc md S) n.
+Proof. exact C02_acyclic. Qed.
+Print Assumptions C02_partial.
+
+(* On such documents the run takes none of the loss-relevant branches, does not run out of fuel and registers
+   every declared schema (so the dynamic guards of the correspondence driver are all true). *)
+Theorem C02_acyclic_runs_clean : forall md S rk,
+  core_spec S = true -> ranked_b rk S = true -> depth_ok rk S md = true ->
+  let s := parse_doc md S in events s = [] /\ oof s = false /\ all_present S s = true.
+Proof. exact acyclic_clean. Qed.
+Print Assumptions C02_acyclic_runs_clean.
+
+(* Dynamic form (no acyclicity witness needed): whenever the run of the model on a core document fires no
+   loss-relevant branch, fidelity holds. *)
+Theorem C02_partial_clean_runs : forall md S,
   core_spec S = true ->
   let s := parse_doc md S in
   events s = [] -> oof s = false -> all_present S s = true ->
   forall n, In n (map fst S) -> faithful S s n.
 Proof. exact C02_core. Qed.
-Print Assumptions C02_partial.
+Print Assumptions C02_partial_clean_runs.
 
 (* The only ways a schema of the core fragment loses fidelity are the logged branches (cycle placeholder stored /
    returned, depth placeholder, early return of an existing or placeholder schema, overwrite, dangling $ref). *)
@@ -48,11 +63,12 @@ Proof. exact loss_only_by_events. Qed.
 Print Assumptions C02_loss_only_by_events.
 
 Theorem C02_guard_nonvacuous :
+  (core_spec spec_ok = true /\ ranked_b rk_ok spec_ok = true /\ depth_ok rk_ok spec_ok default_max_depth = true) /\
   core_spec spec_ok = true /\ events (parse_doc default_max_depth spec_ok) = []
   /\ oof (parse_doc default_max_depth spec_ok) = false /\ all_present spec_ok (parse_doc default_max_depth spec_ok) = true
   /\ model_fields (parse_doc default_max_depth spec_ok) sPet
      = Some [(sident, true, TPrim PInteger); (skind, false, TRef sKind); (stag, true, TRef sTag); (snames, false, TList (TPrim PString))].
-Proof. exact guard_nonvacuous. Qed.
+Proof. exact (conj static_guard_nonvacuous guard_nonvacuous). Qed.
 Print Assumptions C02_guard_nonvacuous.
 
 Theorem C02_refuted_F02a :
